@@ -13,6 +13,7 @@
 //! leaves the offending operation as the last (unterminated) line of the output.
 
 mod exec;
+mod exhaust;
 mod gen;
 mod ops;
 mod rng;
@@ -27,31 +28,109 @@ fn main() {
         std::process::exit(2);
     }
     std::panic::set_hook(Box::new(|_| {}));
-    let stdout = std::io::stdout();
-    let mut out = std::io::BufWriter::with_capacity(1 << 16, stdout.lock());
-    match args[1].as_str() {
+    let out = ();
+    let hists: Vec<ops::History> = match args[1].as_str() {
         "gen" => {
             let profile = args[2].as_str();
             let seed: u64 = args[3].parse().expect("seed");
             let n: usize = args[4].parse().expect("histories");
             let size: usize = if args.len() > 5 { args[5].parse().expect("size") } else { 0 };
-            let hists = gen::generate(profile, seed, n, size);
-            for (i, h) in hists.iter().enumerate() {
-                exec::run_history(&mut out, i, h);
-            }
+            gen::generate(profile, seed, n, size)
         }
         "replay" => {
             let f = std::fs::File::open(&args[2]).expect("open script");
-            let hists = ops::parse_script(std::io::BufReader::new(f).lines().map(|l| l.unwrap()));
-            for (i, h) in hists.iter().enumerate() {
-                exec::run_history(&mut out, i, h);
-            }
+            ops::parse_script(std::io::BufReader::new(f).lines().map(|l| l.unwrap()))
         }
         other => {
             eprintln!("unknown mode {other}");
             std::process::exit(2);
         }
+    };
+    // ITV_START=k: skip the first k histories (the orchestrator restarts the harness after the
+    // history that killed the process).  ITV_HIST_TIMEOUT=s: a history that does not finish within
+    // s seconds is abandoned (its thread keeps spinning) and reported as "!HANG".
+    let start: usize = std::env::var("ITV_START").ok().and_then(|s| s.parse().ok()).unwrap_or(0);
+    let limit: u64 = std::env::var("ITV_HIST_TIMEOUT").ok().and_then(|s| s.parse().ok()).unwrap_or(20);
+    let hists = std::sync::Arc::new(hists);
+    let mut hangs = 0;
+    drop(out);
+    let say = |text: &str| {
+        let so = std::io::stdout();
+        let mut l = so.lock();
+        l.write_all(text.as_bytes()).unwrap();
+        l.flush().unwrap();
+    };
+    for i in start..hists.len() {
+        CURRENT.store(i, std::sync::atomic::Ordering::SeqCst);
+        let last_nl = std::sync::Arc::new(std::sync::atomic::AtomicBool::new(true));
+        let (tx, rx) = std::sync::mpsc::channel::<()>();
+        let (nl2, h2) = (last_nl.clone(), hists.clone());
+        let th = std::thread::Builder::new().stack_size(64 << 20).spawn(move || {
+            let mut w = SharedBuf { buf: Vec::with_capacity(1 << 16), id: i, last_nl: nl2 };
+            exec::run_history(&mut w, i, &h2[i]);
+            let _ = w.flush();
+            let _ = tx.send(());
+        }).expect("spawn");
+        match rx.recv_timeout(std::time::Duration::from_secs(limit)) {
+            Ok(()) => {
+                let _ = th.join();
+            }
+            Err(std::sync::mpsc::RecvTimeoutError::Disconnected) => {
+                // the history thread died outside catch_unwind: treat as a crash of the harness
+                std::process::exit(3);
+            }
+            Err(std::sync::mpsc::RecvTimeoutError::Timeout) => {
+                // silence the abandoned thread, then close its last line
+                CURRENT.store(usize::MAX, std::sync::atomic::Ordering::SeqCst);
+                if !last_nl.load(std::sync::atomic::Ordering::SeqCst) {
+                    say(&format!(" => !HANG no result within {limit}s ## -\n"));
+                } else {
+                    say("# !HANG between operations\n");
+                }
+                hangs += 1;
+                if hangs >= 6 {
+                    say("# too many hanging histories: giving up on this batch\n");
+                    break;
+                }
+            }
+        }
     }
-    writeln!(out, "#END").unwrap();
-    out.flush().unwrap();
+    say("#END\n");
+    if hangs > 0 {
+        std::process::exit(0); // abandoned threads are still spinning
+    }
+}
+
+static CURRENT: std::sync::atomic::AtomicUsize = std::sync::atomic::AtomicUsize::new(0);
+
+/// The writer of a history thread: buffered, written through to stdout on every flush (the executor
+/// flushes the operation text BEFORE running the operation, so an abort or a hang leaves the
+/// operation in flight as the last, unterminated line).  A thread that was abandoned is silenced.
+struct SharedBuf {
+    buf: Vec<u8>,
+    id: usize,
+    last_nl: std::sync::Arc<std::sync::atomic::AtomicBool>,
+}
+impl Write for SharedBuf {
+    fn write(&mut self, b: &[u8]) -> std::io::Result<usize> {
+        self.buf.extend_from_slice(b);
+        if self.buf.len() > (1 << 16) {
+            self.flush()?;
+        }
+        Ok(b.len())
+    }
+    fn flush(&mut self) -> std::io::Result<()> {
+        if self.buf.is_empty() {
+            return Ok(());
+        }
+        if CURRENT.load(std::sync::atomic::Ordering::SeqCst) == self.id {
+            let so = std::io::stdout();
+            let mut l = so.lock();
+            l.write_all(&self.buf)?;
+            l.flush()?;
+            self.last_nl.store(self.buf.last() == Some(&b'\n'), std::sync::atomic::Ordering::SeqCst);
+        }
+        self.buf.clear();
+        Ok(())
+    }
 }
